@@ -1,6 +1,7 @@
 import QR.Model.QRObject
 import QR.Proofs.Except
 import QR.Proofs.History
+import QR.Proofs.SourceTie
 /-
 C11 - a compile depends only on current data and settings, never on history.  (Invariant proof under construction.)
 -/
@@ -197,5 +198,12 @@ theorem C11_history_free_any (ops : List Op) (g0 : Global) (hg : Global.Inv g0) 
     have key := fun fit => history_free_weak ops g0 hg s0 fit
     rw [h] at key
     exact ⟨(key true).1, fun fit => (key fit).2⟩
+
+/-! ### tie to the source: the model's expressions are the ones translated from the current Python AST (T2) -/
+
+/-- `make` calls best_fit, makeImpl, best_mask_pattern, makeImpl - the calls the state machine composes -/
+theorem C11_source_structure :
+    Gen.Code.make_calls = ["self.best_fit", "self.makeImpl", "self.best_mask_pattern", "self.makeImpl"] :=
+  QR.SourceTie.structure_eq.2
 
 end QR.Props
